@@ -899,3 +899,303 @@ Proof.
   split; [apply bytes_okb_spec; vm_compute; reflexivity|]. repeat split; vm_compute; reflexivity.
 Qed.
 (* ---- end audit round 2 ---- *)
+
+(* ==== round3 c05d begin ==== *)
+(* ---- round 3 (audit top-12 item 7, first half): clause (d) for LaxPacketHeaders -----------------------------
+   Composition (Parse/LaxHdrIncomplete.v) of C04_lax_headers_eq_slices (LaxPacketHeaders = cut lax slicing),
+   C04_lax_cut_is_slicing_* (cut = uncut outside the refilled-extension class), lconv_payload_inc / the text
+   of `lconv` and `carry_src`, and C05_incomplete_iff_packet.  No new model.
+
+   LaxPacketHeaders.from_X bs = Ok p (X = ethernet / ether_type et / ip), outside the refilled-extension
+   class  ==>  LaxSlicedPacket.from_X bs = Ok r' with packet_flags_ok (C05_incomplete_iff_packet: every
+   MACsec extension and the IP layer of r' is flagged exactly when its length field, read from the buffer at
+   the layer's absolute position, promises more than the enclosing slice holds), the link-extension and
+   network header windows of p are those of r', and the one payload p hands out is
+     - behind an IPv4 / IPv6 header at the start of the enclosing slice enc = enc_after enc0 (exts of r'):
+       flagged incomplete exactly when  snd enc < total length  /  snd enc < 40 + payload length  (words of the
+       buffer at fst enc + 2 / fst enc + 4); when p has no transport header the payload is an IP payload
+       descriptor with ip_flag_ok: flagged => length source Slice, window ends at the end of enc;
+     - behind ARP (no transport header): Empty;
+     - no network and no transport header, last link extension MACsec (hp, hl) decoded from the slice enc =
+       (pos, a): hp = pos, flagged exactly when (0 < sl) && (a < hl + body) (sl = B(pos+1) mod 64, body = sl
+       or sl - 2), flagged => the window is (pos + hl, a - hl) and ends at the end of enc, and for an
+       unmodified payload the length source is `lvexts_src ys Slice`: the last length source other than
+       Slice of the MACsec extensions in FRONT (= Slice when none of them had a short length);
+     - no network and no transport header, last link extension a VLAN tag / no link extension: not flagged.
+   Clause (d3) "the slice reported as length source" is thereby proved for IP payloads and for the ether
+   payload behind a single MACsec header; behind two MACsec headers it is REFUTED for LaxPacketHeaders
+   (C05_headers_incomplete_src_refuted: real crate behaviour, observation (D) of notes/C04.md reaching (d3)).
+   The transport payloads (Udp / Tcp / Icmpv4 / Icmpv6 { incomplete }) carry the IP payload's flag and no
+   length source.  from_ip needs no F11 hypothesis (inside F11 LaxPacketHeaders::from_ip returns Err). *)
+From EP Require Import Parse.LaxHdrIncomplete.
+
+Theorem C05_headers_incomplete_iff : forall bs et, bytes_ok bs ->
+  hdr_flags_ok bs (14, len bs - 14) (LaxCut.from_ethernet true bs) (LaxSlicedPacket.from_ethernet bs)
+    (LaxPacketHeaders.from_ethernet bs) /\
+  hdr_flags_ok bs (0, len bs) (LaxCut.from_ether_type true et bs) (LaxSlicedPacket.from_ether_type et bs)
+    (LaxPacketHeaders.from_ether_type et bs) /\
+  hdr_flags_ok bs (0, len bs) (LaxCut.from_ip true bs) (LaxSlicedPacket.from_ip bs)
+    (LaxPacketHeaders.from_ip bs).
+Proof. exact hdr_lax_incomplete_iff. Qed.
+Print Assumptions C05_headers_incomplete_iff.
+
+(* pin the meaning *)
+Check (eq_refl : hdr_flags_ok =
+  fun bs enc0 laxcut lax lh => forall p, lh = Ok p -> lax_stopped_at_ext laxcut = false ->
+    exists r' v,
+      lax = Ok r' /\ lhview_of p = Ok v /\
+      packet_flags_ok bs enc0 (lview r') /\
+      lhv_exts v = map (fun x => ext_hdr (strictify_ext x)) (lv_exts (lview r')) /\
+      lhv_net v = option_map lnet_hdr (lv_net (lview r')) /\
+      hdr_payload_flag_ok bs enc0 (lview r') v).
+Check (eq_refl : hdr_payload_flag_ok =
+  fun bs enc0 q v =>
+    let pl := lhv_payload v in
+    let enc := enc_after enc0 (lv_exts q) in
+    match lv_net q with
+    | Some (LVIpv4 _ _ _) => ip_payload_ok enc (W bs (fst enc + 2)) (lhv_tr v) pl
+    | Some (LVIpv6 _ _ _ _ _) => ip_payload_ok enc (40 + W bs (fst enc + 4)) (lhv_tr v) pl
+    | Some (LVArp _) => lhv_tr v = None -> pl = LHvpEmpty
+    | None =>
+        lhv_tr v = None ->
+        (forall ys hdr mp, lv_exts q = ys ++ [LVMacsec hdr mp] ->
+           macsec_payload_ok bs (enc_after enc0 ys) (lvexts_src ys LsSlice) hdr pl) /\
+        (forall ys w, lv_exts q = ys ++ [LVVlan w] -> payload_inc pl = false) /\
+        (lv_exts q = [] -> payload_inc pl = false)
+    end).
+Check (eq_refl : ip_payload_ok =
+  fun enc promised tr pl =>
+    payload_inc pl = (snd enc <? promised) /\
+    (tr = None -> exists p, pl = LHvpIp p /\ ip_flag_ok enc promised p)).
+Check (eq_refl : macsec_payload_ok =
+  fun bs enc carried hdr pl =>
+    let pos := fst enc in
+    let a := snd enc in
+    let sl := B bs (pos + 1) mod 64 in
+    let unmod := (B bs pos / 4) mod 4 =? 0 in
+    let body := if unmod then sl - 2 else sl in
+    let hl := snd hdr in
+    fst hdr = pos /\
+    payload_inc pl = ((0 <? sl) && (a <? hl + body)) /\
+    (payload_inc pl = true ->
+     match pl with
+     | LHvpEther e =>
+         lvep_win e = (pos + hl, a - hl) /\ win_end (lvep_win e) = win_end enc /\ lvep_src e = carried
+     | LHvpMacsecMod _ w => w = (pos + hl, a - hl) /\ win_end w = win_end enc
+     | _ => False
+     end)).
+Check (eq_refl : lvexts_src =
+  fix f (l : list lvlink_ext) (acc : len_source) : len_source :=
+    match l with
+    | [] => acc
+    | LVMacsec _ (LVMpUnmodified e) :: r => f r (match lvep_src e with LsSlice => acc | s => s end)
+    | _ :: r => f r acc
+    end).
+
+(* (d3) does not hold for the ether payload of LaxPacketHeaders behind two MACsec headers: Ethernet II /
+   MACsec unmodified, short length 20 (met: 18 bytes follow the SecTAG) / MACsec unmodified, short length 40
+   (NOT met: 10 bytes follow) / 10 bytes of an IPv4 header.  LaxSlicedPacket: second MACsec payload
+   incomplete, length source Slice, window [30, 40).  LaxPacketHeaders: payload Ether { incomplete: true,
+   len_source: MacsecShortLength, the same window }.  Checked on the real crate (harness c04, `eth
+   0102030405060708090a0b0c88e500140000000188e5002800000002080045000014000000004011`:
+   H pl=ether(2048,macsecsl,1,30+10)  S pl=ether(2048,slice,1,30+10)). *)
+Theorem C05_headers_incomplete_src_refuted :
+  exists bs w,
+    bytes_ok bs /\ lax_stopped_at_ext (LaxCut.from_ethernet true bs) = false /\
+    (exists r' h1 p1 h2 e2, LaxSlicedPacket.from_ethernet bs = Ok r' /\
+       lv_exts (lview r') = [LVMacsec h1 p1; LVMacsec h2 (LVMpUnmodified e2)] /\
+       lvep_incomplete e2 = true /\ lvep_src e2 = LsSlice /\ lvep_win e2 = w) /\
+    exists p v e, LaxPacketHeaders.from_ethernet bs = Ok p /\ lhview_of p = Ok v /\
+      lhv_net v = None /\ lhv_payload v = LHvpEther e /\
+      lvep_incomplete e = true /\ lvep_win e = w /\ win_end w = len bs /\
+      lvep_src e = LsMacsecShortLength.
+Proof. exact lax_hdr_incomplete_src_refuted. Qed.
+Print Assumptions C05_headers_incomplete_src_refuted.
+
+(* non-vacuity: the cut packet of C05_ex_cut (Ethernet II / VLAN / IPv4 announcing 32 bytes with 23 present /
+   3 bytes of a UDP header): hypotheses hold; the struct has no transport header and hands out the IP payload
+   descriptor flagged incomplete, length source Slice, window [38, 41) ending at the slice end; the enclosing
+   slice of the IPv4 layer is (18, 23) and W 20 = 32 > 23.  Second: a single MACsec header whose short length
+   is not met: ether payload flagged, Slice *)
+Definition ex_macsec_inc : bytes :=
+  [1;2;3;4;5;6; 7;8;9;10;11;12; 136;229;  0;40; 0;0;0;2; 8;0;  69;0;0;20; 0;0;0;0; 64;17].
+Example C05_ex_headers_incomplete :
+  bytes_ok (firstn 41 ex_pkt) /\
+  lax_stopped_at_ext (LaxCut.from_ethernet true (firstn 41 ex_pkt)) = false /\
+  lhvres_of_h (LaxPacketHeaders.from_ethernet (firstn 41 ex_pkt)) =
+    LHOk (mkLHv (Some (HvlEthernet2 (0, 14))) [HvVlan (14, 4)] (Some (HvIpv4 (18, 20) None)) None
+                (LHvpIp (mkLVIp true 17 false LsSlice (38, 3)))
+                (Some (ELen (mkLenError 8 3 LsSlice LyUdpHeader 38), LyUdpHeader))) /\
+  W (firstn 41 ex_pkt) 20 = 32 /\
+  bytes_ok ex_macsec_inc /\
+  lax_stopped_at_ext (LaxCut.from_ethernet true ex_macsec_inc) = false /\
+  lhvres_of_h (LaxPacketHeaders.from_ethernet ex_macsec_inc) =
+    LHOk (mkLHv (Some (HvlEthernet2 (0, 14))) [HvMacsec (14, 8)] None None
+                (LHvpEther (mkLVEp true 2048 LsSlice (22, 10)))
+                (Some (ELen (mkLenError 20 10 LsSlice LyIpv4Header 22), LyIpHeader))).
+Proof.
+  split; [apply bytes_okb_spec; vm_compute; reflexivity|].
+  split; [vm_compute; reflexivity|]. split; [vm_compute; reflexivity|]. split; [vm_compute; reflexivity|].
+  split; [apply bytes_okb_spec; vm_compute; reflexivity|].
+  split; vm_compute; reflexivity.
+Qed.
+
+(* ---- round 3 (audit top-12 item 7, second half): the MACsec short-length FALLBACK with resumed decoding, and
+   the WHOLE resumed packet (transport layer included) behind every length fallback ---------------------------
+   pwire2_ether answers `P2Rej p e` when a MACsec short length promises more octets than the enclosing data
+   holds (C05_lax_prefix / C05_lax_prefix_net: layers in front + `fallback e`, nothing about what lax decodes
+   behind that SecTAG).  `pwire3_*` (Parse/LaxWire3.v) is pwire2 with that check instrumented like the two IP
+   length checks: `P2Fb p e true resumed`, resumed = the same strict decoder continued on the data that is there
+   (MACsec payload up to the end of the enclosing data, length source Slice; unmodified: decoded further with
+   its ether type; modified: the packet ends).  The network layer is pwire2_net itself, so IP-length P2Fb's may
+   sit inside MACsec ones.  Forgetting the extra information gives pwire / pwire2 / WireSpec back
+   (C05_partial_reference3_sound).
+
+   C05_lax_prefix_resumed: strict model = Err e behind the first header  ==>  pwire3 rejects with e_ref (C03/C07
+   relation res_rel), the lax model returns Ok r', and `resumed_ok bs pw (lview r')`, by recursion through the
+   fallbacks:
+     P2Fb q' e' inc resumed : e' is a documented fallback, q' (the layers in front) is a prefix of the lax
+                              result, the layer behind q' is flagged -- MACsec: the link extension at index
+                              |exts q'| is a MACsec header whose payload has incomplete = inc (= true) and, if
+                              unmodified, length source Slice; IP: the network layer has (incomplete,
+                              len_source) = (inc, Slice) -- and resumed_ok for `resumed`;
+     P2Acc q'               : the resumed strict decoding accepts: strictify (lview r') = q' -- link, all link
+                              extensions, network AND TRANSPORT layer of the lax result are exactly those of
+                              the resumed strict decoding (windows, numbers, length sources; only the
+                              incomplete flags are forgotten) -- and there is no stop error;
+     P2RejNet q' n tag e'   : q' prefix, network layer exactly n, stop error exactly (e', tag), no transport;
+     P2Rej q' e'            : outside F10: q' prefix (behind a fallback it contains what the resumed decoding
+                              decoded, up to and incl. the network layer for a transport fault) and
+                              lax_outcome e' (UDP length fallback, or recorded with the same record and a
+                              fitting tag, or the F11 group).
+   This closes audit item "MACsec short-length fallback = P2Rej" and the `P2Acc q'` arm of net_outcome
+   (transport layer after an IP-length fallback).  All byte strings, three entry points (from_ip has no link
+   extension: pwire2_from_ip).  Proof: lockstep induction on the link-extension capacity against the lax
+   reference decoder lwire (Parse/LaxPrefixResumed.v), transferred to the models by C05_lax_refines_reference /
+   C03. *)
+From EP Require Import Parse.LaxWire3 Parse.LaxPrefixResumed.
+
+Theorem C05_partial_reference3_sound : forall bs et,
+  (to_pres (pwire3_ethernet bs) = pwire_ethernet bs /\
+   to_pres (pwire3_ether_type bs et) = pwire_ether_type bs et) /\
+  (forget (to_pres (pwire3_ethernet bs)) = wire_ethernet bs /\
+   forget (to_pres (pwire3_ether_type bs et)) = wire_ether_type bs et) /\
+  (demacsec (pwire3_ethernet bs) = pwire2_ethernet bs /\
+   demacsec (pwire3_ether_type bs et) = pwire2_ether_type bs et).
+Proof.
+  exact (fun bs et => conj (pwire3_is_pwire bs et) (conj (pwire3_sound bs et) (pwire3_is_pwire2 bs et))).
+Qed.
+Print Assumptions C05_partial_reference3_sound.
+
+Check (eq_refl : demacsec =
+  fun pw => match pw with
+            | P2Fb p (ELen l) inc r =>
+                match le_layer l with LyMacsecPacket => P2Rej p (ELen l) | _ => pw end
+            | _ => pw
+            end).
+
+Theorem C05_lax_prefix_resumed : forall bs et, bytes_ok bs ->
+  (14 <= len bs ->
+   prefix_resumed_ok bs (SlicedPacket.from_ethernet bs) (pwire3_ethernet bs)
+     (LaxSlicedPacket.from_ethernet bs)) /\
+  prefix_resumed_ok bs (SlicedPacket.from_ether_type et bs) (pwire3_ether_type bs et)
+    (LaxSlicedPacket.from_ether_type et bs) /\
+  (ip_header_fault bs = None ->
+   prefix_resumed_ok bs (SlicedPacket.from_ip bs) (pwire2_from_ip bs) (LaxSlicedPacket.from_ip bs)).
+Proof. exact lax_prefix_resumed_packet. Qed.
+Print Assumptions C05_lax_prefix_resumed.
+
+(* pin the meaning *)
+Check (eq_refl : prefix_resumed_ok =
+  fun bs strict pw lax => forall e, strict = Err e ->
+    exists e_ref r',
+      rej2 pw = Some e_ref /\ res_rel (VErr e) (VErr e_ref) /\ lax = Ok r' /\ resumed_ok bs pw (lview r')).
+Check (eq_refl : resumed_ok =
+  fix f (bs : bytes) (pw : pres2) (q : lvpacket) : Prop :=
+    match pw with
+    | P2Acc q' => strictify q = q' /\ lv_stop q = None
+    | P2Rej q' e' => ~ F10_class bs e' -> vprefix q' (strictify q) /\ lax_outcome e' q
+    | P2RejNet q' n tag e' => vprefix q' (strictify q) /\ stopped_in_net q n tag e'
+    | P2Fb q' e' inc resumed =>
+        fallback e' /\ vprefix q' (strictify q) /\ fb_flagged q' e' inc q /\ f bs resumed q
+    | P2Bug _ => False
+    end).
+Check (eq_refl : fb_flagged =
+  fun q' e' inc q =>
+    match e' with
+    | ELen l =>
+        match le_layer l with
+        | LyMacsecPacket =>
+            exists h mp, nth_error (lv_exts q) (length (v_exts q')) = Some (LVMacsec h mp) /\
+              fst (macsec_flags mp) = inc /\
+              (snd (macsec_flags mp) = Some LsSlice \/ snd (macsec_flags mp) = None)
+        | _ => exists n, lv_net q = Some n /\ net_flags n = Some (inc, LsSlice)
+        end
+    | EContent _ => False
+    end).
+Check (eq_refl : macsec_flags =
+  fun mp => match mp with
+            | LVMpUnmodified e => (lvep_incomplete e, Some (lvep_src e))
+            | LVMpModified i _ => (i, None)
+            end).
+
+(* non-vacuity 1: Ethernet II / MACsec unmodified, short length 60 (promises 58 octets behind the 8 byte SecTAG,
+   28 are there) / complete IPv4 + UDP.  Strict rejects at the short length; pwire2 hands back the Ethernet
+   header only; pwire3: fallback, and the resumed decoding ACCEPTS with MACsec (payload [22, 50), Slice), IPv4
+   and UDP [42, 50); the lax result, strictified, is exactly that packet; no stop error *)
+Definition ex_macsec_fb_udp : bytes :=
+  [1;2;3;4;5;6; 7;8;9;10;11;12; 136;229;  0;60; 0;0;0;1; 8;0;
+   69;0;0;28; 0;0;0;0; 64;17;0;0; 1;2;3;4; 5;6;7;8;  0;1;0;2;0;8;0;0].
+Definition ex_macsec_fb_udp_q : vpacket :=
+  mkVPacket (Some (VEthernet2 (0, 50)))
+    [VMacsec (14, 8) (VMpUnmodified (mkVEp 2048 LsSlice (22, 28)))]
+    (Some (VIpv4 (22, 20) None (mkVIp 17 false LsIpv4HeaderTotalLen (42, 8))))
+    (Some (VUdp (42, 8))).
+Example C05_ex_resumed_macsec :
+  bytes_ok ex_macsec_fb_udp /\ 14 <= len ex_macsec_fb_udp /\
+  SlicedPacket.from_ethernet ex_macsec_fb_udp =
+    Err (ELen (mkLenError 66 36 LsMacsecShortLength LyMacsecPacket 14)) /\
+  pwire2_ethernet ex_macsec_fb_udp =
+    P2Rej (mkVPacket (Some (VEthernet2 (0, 50))) [] None None)
+          (ELen (mkLenError 66 36 LsSlice LyMacsecPacket 14)) /\
+  pwire3_ethernet ex_macsec_fb_udp =
+    P2Fb (mkVPacket (Some (VEthernet2 (0, 50))) [] None None)
+         (ELen (mkLenError 66 36 LsSlice LyMacsecPacket 14)) true (P2Acc ex_macsec_fb_udp_q) /\
+  exists r', LaxSlicedPacket.from_ethernet ex_macsec_fb_udp = Ok r' /\
+    strictify (lview r') = ex_macsec_fb_udp_q /\ lsp_stop_err r' = None /\
+    lv_exts (lview r') = [LVMacsec (14, 8) (LVMpUnmodified (mkLVEp true 2048 LsSlice (22, 28)))].
+Proof.
+  split; [apply bytes_okb_spec; vm_compute; reflexivity|].
+  split; [vm_compute; discriminate|]. split; [vm_compute; reflexivity|].
+  split; [vm_compute; reflexivity|]. split; [vm_compute; reflexivity|].
+  eexists. split; [vm_compute; reflexivity|]. split; [reflexivity|]. split; reflexivity.
+Qed.
+
+(* non-vacuity 2, nested: MACsec short length not met / IPv4 announcing 100 bytes with 24 present / 4 bytes of
+   a TCP header: two fallbacks, then the resumed decoding rejects in the transport layer with the MACsec and
+   the IPv4 layer in its prefix; lax: both flagged, stop error = that record on TcpHeader *)
+Definition ex_macsec_fb_v4_fb : bytes :=
+  [1;2;3;4;5;6; 7;8;9;10;11;12; 136;229;  0;60; 0;0;0;1; 8;0;
+   69;0;0;100; 0;0;0;0; 64;6;0;0; 1;2;3;4; 5;6;7;8;  0;1;0;2].
+Example C05_ex_resumed_nested :
+  bytes_ok ex_macsec_fb_v4_fb /\ 14 <= len ex_macsec_fb_v4_fb /\
+  (exists e, SlicedPacket.from_ethernet ex_macsec_fb_v4_fb = Err e) /\
+  (exists q0 e0 q1 q2,
+     pwire3_ethernet ex_macsec_fb_v4_fb =
+       P2Fb q0 e0 true
+         (P2Fb q1 (ELen (mkLenError 100 24 LsSlice LyIpv4Packet 22)) true
+            (P2Rej q2 (ELen (mkLenError 20 4 LsSlice LyTcpHeader 42)))) /\
+     v_exts q1 = [VMacsec (14, 8) (VMpUnmodified (mkVEp 2048 LsSlice (22, 24)))] /\
+     v_net q2 = Some (VIpv4 (22, 20) None (mkVIp 6 false LsSlice (42, 4)))) /\
+  exists r', LaxSlicedPacket.from_ethernet ex_macsec_fb_v4_fb = Ok r' /\
+    lv_exts (lview r') = [LVMacsec (14, 8) (LVMpUnmodified (mkLVEp true 2048 LsSlice (22, 24)))] /\
+    lv_net (lview r') = Some (LVIpv4 (22, 20) None (mkLVIp true 6 false LsSlice (42, 4))) /\
+    lsp_stop_err r' = Some (ELen (mkLenError 20 4 LsSlice LyTcpHeader 42), LyTcpHeader).
+Proof.
+  split; [apply bytes_okb_spec; vm_compute; reflexivity|].
+  split; [vm_compute; discriminate|]. split; [eexists; vm_compute; reflexivity|].
+  split.
+  { do 4 eexists. split; [vm_compute; reflexivity|]. split; reflexivity. }
+  eexists. split; [vm_compute; reflexivity|]. split; [reflexivity|]. split; reflexivity.
+Qed.
+(* ==== round3 c05d end ==== *)
